@@ -1003,6 +1003,13 @@ func (m *Nitro) StoreToDisk(dir string, snap *Snapshot, concurr int, itmCallback
 		snap = &fakeSnap
 
 		defer func() {
+			storeErr := err
+			defer func() {
+				// Do not mask a failure of the backup itself
+				if storeErr != nil {
+					err = storeErr
+				}
+			}()
 			if err = m.changeDeltaWrState(dwStateTerminate, nil, nil); err == nil {
 				bs, _ := json.Marshal(deltaFiles)
 				err = ioutil.WriteFile(filepath.Join(deltadir, "files.json"), bs, 0660)
